@@ -71,7 +71,7 @@ def run_property(prop, tier, seed, replay=None, keep=False, quiet=False):
     else:
         nshards = mod.shards(tier) if hasattr(mod, "shards") else 16
         nshards = max(1, min(nshards, int(os.environ.get("VMON_MAX_SHARDS", "16"))))
-    timeout = mod.timeout(tier) if hasattr(mod, "timeout") else (900 if tier == "quick" else 7200)
+    timeout = mod.timeout(tier) if hasattr(mod, "timeout") else (1800 if tier == "quick" else 14400)
     timeout = int(os.environ.get("VMON_TIMEOUT", timeout))
 
     procs = []
